@@ -45,7 +45,7 @@ if [ $res_build = yes ]; then
   if (cd "$WT" && go test -vet=off -count=1 ./... >"$OUT/suite_with_change.txt" 2>&1); then res_tests=yes; fi
   if [ -n "$DEMO" ] && [ -n "$DEMODIR" ]; then
     cp "$DEMO" "$WT/$DEMODIR/zz_seed_demo_test.go"
-    if (cd "$WT" && timeout 600 go test -vet=off -count=1 -run "$RUNPAT" "./$DEMODIR/" >"$OUT/demo_with_change.txt" 2>&1); then res_demo_with=pass; else res_demo_with=fail; fi
+    if (cd "$WT" && timeout 900 go test ${DEMO_RACE:+-race} -vet=off -count=1 -run "$RUNPAT" "./$DEMODIR/" >"$OUT/demo_with_change.txt" 2>&1); then res_demo_with=pass; else res_demo_with=fail; fi
     rm -f "$WT/$DEMODIR/zz_seed_demo_test.go"
   fi
   if [ -n "$DEMOSH" ]; then
@@ -70,7 +70,7 @@ fi
 if [ -n "$DEMO" ] && [ -n "$DEMODIR" ]; then
   (cd "$WT" && git checkout -q -- . && git clean -fdq)
   cp "$DEMO" "$WT/$DEMODIR/zz_seed_demo_test.go"
-  if (cd "$WT" && timeout 600 go test -vet=off -count=1 -run "$RUNPAT" "./$DEMODIR/" >"$OUT/demo_without_change.txt" 2>&1); then res_demo_without=pass; else res_demo_without=fail; fi
+  if (cd "$WT" && timeout 900 go test ${DEMO_RACE:+-race} -vet=off -count=1 -run "$RUNPAT" "./$DEMODIR/" >"$OUT/demo_without_change.txt" 2>&1); then res_demo_without=pass; else res_demo_without=fail; fi
   log "demo_without_change=$res_demo_without"
 fi
 if [ -n "$DEMOSH" ]; then
